@@ -1,17 +1,43 @@
 #!/usr/bin/env python3
-"""Record the crate-local functions of the current /repo tree (tables/baseline_fns.json).
-Functions that are not in this table are treated as helpers introduced later and are inlined at their call
-sites before the rules run (rules/norm.py). Regenerate after a deliberate change to /repo (fix commits)."""
+"""Record the crate-local functions of the current /repo tree and their parameter names (tables/baseline_fns.json).
+Functions that are not in this table are treated as helpers introduced later and are inlined at their call sites
+before the rules run; a function whose parameters were merely reordered is presented in the recorded order
+(rules/norm.py). Regenerate after a deliberate change to /repo (fix commits)."""
 import json, os, sys
 sys.path.insert(0, os.path.join(os.path.dirname(os.path.abspath(__file__)), "..", "rules"))
 import facts
-names = set()
+import norm
+norm.apply = lambda f: None
+names, params, locs = set(), {}, {}
+
+
+def walk(n):
+    if isinstance(n, dict):
+        yield n
+        for v in n.values():
+            if isinstance(v, (dict, list)):
+                yield from walk(v)
+    elif isinstance(n, list):
+        for x in n:
+            yield from walk(x)
+
 for cfg in facts.CONFIGS:
     F, _ = facts.get_facts(cfg, "/repo")
-    for p in F.hir:
+    for p, fn in F.hir.items():
         sp = facts.strip_generics(p)
-        if "{closure" not in sp:
-            names.add(sp)
+        if "{closure" in sp:
+            continue
+        names.add(sp)
+        ps = [x.get("name") for x in fn.get("params", [])]
+        if all(ps):
+            params[sp] = ps
+        ls = sorted({n["name"] for n in walk(fn["body"]) if n.get("k") == "Binding" and n.get("name")})
+        locs[sp] = sorted(set(locs.get(sp, [])) | set(ls))
+variants = {}
+F, _ = facts.get_facts("default", "/repo")
+for p, a in F.adts.items():
+    if a.get("kind") == "Enum" and a.get("vis") != "Public":
+        variants[facts.strip_generics(p)] = [v["name"] for v in a["variants"]]
 out = os.path.join(facts.VERIF, "tables", "baseline_fns.json")
-json.dump({"comment": "crate-local functions of the tree the rules were written against (all feature configurations)", "fns": sorted(names)}, open(out, "w"), indent=0)
+json.dump({"comment": "crate-local functions of the tree the rules were written against (all feature configurations), with their parameter names in declaration order", "fns": sorted(names), "params": params, "locals": locs, "private_enum_variants": variants}, open(out, "w"), indent=0)
 print(len(names), "functions")
